@@ -151,6 +151,9 @@ type c08Case struct {
 	Feature string `json:"feature"`
 	Line    int    `json:"line"`
 	Char    int    `json:"character"`
+	// IncEdited: the included file is open with unsaved edits (its saved text
+	// has five more lines at the top)
+	IncEdited bool `json:"included_file_open_with_unsaved_edits,omitempty"`
 }
 
 var hoverKind = regexp.MustCompile("^\\*\\*(Account|Amount|Payee|Date|Tag):\\*\\* ?`?([^`\n]*)`?")
@@ -231,6 +234,23 @@ func rangeClass(rd *gmodel.Rendered, r lspRange) string {
 }
 
 func checkC08(c *core.Ctx) {
+	if c.Replay != nil {
+		var cs c08Case
+		if err := jsonUnmarshal(c.Replay, &cs); err != nil {
+			c.Res.InfraError = "bad replay: " + err.Error()
+			return
+		}
+		c08Pass(c, cs.IncEdited)
+		return
+	}
+	c08Pass(c, false)
+	if !c.Expired() {
+		// the same sweep with the included file open and edited without saving
+		c08Pass(c, true)
+	}
+}
+
+func c08Pass(c *core.Ctx, incEdited bool) {
 	dir := filepath.Join(c.Scratch, "c08")
 	_ = os.MkdirAll(dir, 0o755)
 	mainPath := filepath.Join(dir, "main.journal")
@@ -243,7 +263,11 @@ func checkC08(c *core.Ctx) {
 	incJ.Entries = incJ.Entries[:1]
 	incJ.Entries = append([]gmodel.Entry{{Kind: gmodel.EntryAccount, Account: "expenses:food"}, {Kind: gmodel.EntryCommodity, Sym: "$", Format: "$1,000.00"}}, incJ.Entries...)
 	incRd := incJ.Render()
-	_ = os.WriteFile(incPath, []byte(incRd.Text), 0o644)
+	incDisk := incRd.Text
+	if incEdited {
+		incDisk = "; saved 1\n; saved 2\n; saved 3\n; saved 4\n; saved 5\n" + incRd.Text
+	}
+	_ = os.WriteFile(incPath, []byte(incDisk), 0o644)
 
 	emphasis := []string{"desc-shape", "header-kind", "note-shape", "pipe-blanks", "code", "status", "header-gap", "date2", "date-sep", "date-pad",
 		"account-shape", "commodity", "sign", "number", "cost", "cost-amount", "assertion", "posting-comment", "header-comment", "tx-comment-line", "last-posting-comment",
@@ -253,6 +277,12 @@ func checkC08(c *core.Ctx) {
 	s := wire.New()
 	s.Initialize(wire.InitOpts{})
 	s.Initialized()
+	modeTag := ""
+	if incEdited {
+		s.DidOpen(incURI, incDisk)
+		s.DidChangeFull(incURI, incRd.Text, 2)
+		modeTag = "|included file open with unsaved edits"
+	}
 
 	evalCache := map[string]map[string]bool{} // devnames -> set of violation keys (for tainting)
 	var current map[string]bool
@@ -289,8 +319,8 @@ func checkC08(c *core.Ctx) {
 					return
 				}
 			}
-			c.Violate(fmt.Sprintf("%s|%s|%s|%s", feature, clause, class, devNames), feature+": "+clause,
-				fmt.Sprintf("%s at %d:%d\n%s\n--- document:\n%s", feature, line, char, detail, text), c08Case{devNames, text, feature, line, char})
+			c.Violate(fmt.Sprintf("%s|%s|%s|%s%s", feature, clause, class, devNames, modeTag), feature+": "+clause,
+				fmt.Sprintf("%s at %d:%d\n%s\n--- document:\n%s", feature, line, char, detail, text), c08Case{devNames, text, feature, line, char, incEdited})
 		}
 
 		validate := func(feature string, res string, line, char int) []foundRange {
@@ -518,7 +548,7 @@ func checkC08(c *core.Ctx) {
 	if c.Thorough() {
 		bound = 2
 	}
-	c.Bound("journals", fmt.Sprintf("default journal + include line + included file; deviation bound %d over %d deviations (quick adds the listed pairs)", bound, len(devs)))
+	c.Bound("journals", fmt.Sprintf("default journal + include line + included file; deviation bound %d over %d deviations (quick adds the listed pairs); once with the included file closed, once with it open and edited without saving", bound, len(devs)))
 	nontrivialDev := func(applied []gmodel.Dev) bool {
 		for _, d := range applied {
 			n := d.String()
